@@ -2,6 +2,7 @@
 from checks import gf256
 
 ID = 'C14'
+PROP_MODULES = ['QRV.Props.C14', 'QRV.Props.C14Complete']
 RULE = ('for every parity length n in 2..68 and codeword lengths n+1..255 (short, mid, full): a codeword from the reference encoder damaged in e positions, '
         'e in {0, 1, floor(n/4), floor(n/2)} (must be restored exactly) and e in {floor(n/2)+1, .., n, random} (success only with a codeword within floor(n/2) of the input); '
         'damage at first/last/parity/random positions, any non-zero error values; plus arbitrary words, all-zero words, twoS in {-1,0,1}, data shorter than twoS. '
@@ -12,15 +13,15 @@ TRUSTED = [
     'Model/RS.lean decode/euclid/Chien/Forney: hand transcription of reedsolomon.go and poly.go (value-level: slice aliasing inside poly.go is only visible to the differential run)',
     'python GF/RS reference in checks/gf256.py',
 ]
-ASSUMPTIONS = ['completeness (every pattern within floor(n/2) is corrected) is not a theorem yet: Props/C14.lean carries the proved part; the clause is checked by differential/oracle runs only']
-PARTIAL = 'dec_complete is checked by exploration only (within-capacity damage must decode to the codeword); no-panic, soundness, clean-codeword and the distance bound are theorems'
+ASSUMPTIONS = ['codeword length <= 255 (the decoder maps locators to positions through the discrete logarithm)']
 MANIFEST = {
-    'technique': 'Lean 4 proofs about a model of the Euclidean decoder (no panic, soundness by syndrome re-check, clean codewords, distance bound) + differential correspondence; completeness by exploration only',
-    'text': ('QRV/Props/C14.lean proves for the model of reedsolomon.Decode/poly.go: it never panics for twoS >= 0, success implies all syndromes of the returned buffer are zero '
-             'and at most floor(n/2) positions changed, and a clean codeword of the modelled encoder is returned unchanged (every n in 2..68, every length). The completeness clause '
-             '(within-capacity damage is always corrected: Sugiyama\'s algorithm) is NOT proved; it is exercised by the differential runs and the python oracle for every n and damage up to capacity.'),
-    'note': ('Trusted: Lean kernel; hand-written Model/RS.lean tied by correspondence on generated words; aliasing in poly.go (Add/MulElement mutate the receiver) is invisible to the '
-             'value-level model and is guarded only by the differential run. Completeness is exploration-level.'),
+    'technique': 'Lean 4 proofs about a model of the Euclidean (Sugiyama) decoder: no panic incl. termination, soundness, distance bound, and COMPLETENESS (key equation, uniqueness, Chien, Forney) over a Mathlib Field instance; differential correspondence',
+    'text': ('QRV/Props/C14.lean and C14Complete.lean prove for the model of reedsolomon.Decode/poly.go, for every parity length and every word: it never panics and every loop terminates; success implies all '
+             'syndromes of the returned buffer are zero and at most floor(n/2) positions changed; a clean codeword is returned unchanged; and (dec_complete) every word within floor(n/2) of a '
+             'codeword of length <= 255 is restored to exactly that codeword - Sugiyama\'s algorithm: key equation, Euclidean invariant, uniqueness of the solution, Chien search finds exactly the '
+             'error locators, Forney gives the error values - plus the minimum distance n+1 of the code. The model is tied to the Go code by differential runs for every n with damage within and beyond capacity.'),
+    'note': ('Trusted: Lean kernel; Mathlib (polynomial algebra over a Field instance built from the proved GF laws) in proof-only modules; hand-written Model/RS.lean tied by correspondence on generated words; '
+             'aliasing inside poly.go (Add/MulElement mutate the receiver) is invisible to the value-level model and is guarded only by the differential run.'),
 }
 
 
